@@ -336,6 +336,11 @@ pub fn faulty_rule(r: &mut Rng, latency_us: u64, allow_flips: bool) -> LinkRule 
     if allow_flips && r.chance(0.4) {
         rule.flip_p = *r.pick(&[0.01, 0.05, 0.2]);
     }
+    // heavier damage than the CRC guarantees to catch (5-40 flipped bits, truncation): it passes
+    // a 32-bit check once in 2^32 times
+    if allow_flips && r.chance(0.15) {
+        rule.garble_p = *r.pick(&[0.01, 0.05]);
+    }
     rule
 }
 
@@ -420,6 +425,18 @@ pub fn world_a_general(property: &str, scenario: &str, seed: u64, run: u64, sc: 
             // fair phase: both applications keep stepping at least every 200 ms
             let period = cad.period_us.clamp(1000, 200_000);
             plan.push(fault_end + r.below(period), r.u32() | 1, Op::StepEvery { ep, period_us: period, until_us: sc.horizon_us });
+        }
+    }
+    // a receive buffer that holds only a few datagrams for a while (what arrives beyond is lost)
+    {
+        let mut r = Rng::keyed(&[seed, run, 0x50c4_a]);
+        let until = if heal { sc.fault_until_us } else { sc.horizon_us };
+        if until > 1_000_000 && r.chance(0.12) {
+            let ep = r.below(2) as usize;
+            let t0 = r.range(100_000, until);
+            let t1 = (t0 + r.log_range(10_000, 5_000_000)).min(until);
+            plan.push(t0, r.u32() | 1, Op::SockCap { ep, cap: *r.pick(&[1u32, 2, 4, 16]) });
+            plan.push(t1, r.u32() | 1, Op::SockCap { ep, cap: u32::MAX });
         }
     }
     plan.params.insert("short_ch".into(), short_ch as f64);
